@@ -184,6 +184,9 @@ type CodecSet struct {
 	IEs    map[string]*IEDesc
 	Codecs []*Codec
 	ByName map[string]*Codec
+	// encoder statements folded by foldPutUint
+	writeOverride map[ast.Stmt]ast.Expr
+	writeSkip     map[ast.Stmt]bool
 }
 
 // ExtractCodecs finds every struct type M in nasMessage with methods EncodeM(*bytes.Buffer) error
@@ -750,7 +753,126 @@ func (cs *CodecSet) unclassified(c *Codec, fname string, s ast.Stmt) {
 
 // ioStmt matches: if err := binary.Read|Write(buf, binary.BigEndian, X); err != nil { return <non-nil error> }
 // It returns the I/O operand, whether the error arm provably returns a non-nil error, and ok.
+// directWrite: `buffer.WriteByte(x)` / `buffer.Write(p)` on the message buffer as a statement
+// (results unused or blank): appending to a bytes.Buffer cannot fail, so there is no error arm.
+func (cs *CodecSet) directWrite(s ast.Stmt, bufName string) (operand ast.Expr, ok bool) {
+	var call *ast.CallExpr
+	switch st := s.(type) {
+	case *ast.ExprStmt:
+		call, _ = st.X.(*ast.CallExpr)
+	case *ast.AssignStmt:
+		if len(st.Rhs) == 1 {
+			blank := true
+			for _, l := range st.Lhs {
+				if id, isID := l.(*ast.Ident); !isID || id.Name != "_" {
+					blank = false
+				}
+			}
+			if blank {
+				call, _ = st.Rhs[0].(*ast.CallExpr)
+			}
+		}
+	}
+	if call == nil || len(call.Args) != 1 {
+		return nil, false
+	}
+	se, isSel := call.Fun.(*ast.SelectorExpr)
+	if !isSel {
+		return nil, false
+	}
+	if id, isID := ast.Unparen(se.X).(*ast.Ident); !isID || id.Name != bufName {
+		return nil, false
+	}
+	switch fullName(calleeOf(cs.info, call)) {
+	case "(*bytes.Buffer).WriteByte", "(*bytes.Buffer).Write":
+		if op, over := cs.writeOverride[s]; over {
+			return op, true
+		}
+		return call.Args[0], true
+	}
+	return nil, false
+}
+
+// foldPutUint: `var t [n]byte; binary.BigEndian.PutUintN(t[:], X); buffer.Write(t[:])` writes X
+// big-endian, as binary.Write(buffer, binary.BigEndian, X) does: the Write statement gets X as
+// its operand and the two statements before it are skipped.
+func (cs *CodecSet) foldPutUint(stmts []ast.Stmt, bufName string) {
+	if cs.writeOverride == nil {
+		cs.writeOverride = map[ast.Stmt]ast.Expr{}
+		cs.writeSkip = map[ast.Stmt]bool{}
+	}
+	sliceOf := func(e ast.Expr) *ast.Ident {
+		sl, ok := ast.Unparen(e).(*ast.SliceExpr)
+		if !ok || sl.Low != nil || sl.High != nil || sl.Max != nil {
+			return nil
+		}
+		id, _ := ast.Unparen(sl.X).(*ast.Ident)
+		return id
+	}
+	for i := 0; i+2 < len(stmts); i++ {
+		ds, ok := stmts[i].(*ast.DeclStmt)
+		if !ok {
+			continue
+		}
+		gd, ok := ds.Decl.(*ast.GenDecl)
+		if !ok || gd.Tok != token.VAR || len(gd.Specs) != 1 {
+			continue
+		}
+		vs := gd.Specs[0].(*ast.ValueSpec)
+		if len(vs.Names) != 1 || len(vs.Values) != 0 {
+			continue
+		}
+		obj := cs.info.Defs[vs.Names[0]]
+		arr, isArr := obj.Type().Underlying().(*types.Array)
+		if !isArr {
+			continue
+		}
+		es, ok := stmts[i+1].(*ast.ExprStmt)
+		if !ok {
+			continue
+		}
+		put, ok := es.X.(*ast.CallExpr)
+		if !ok || len(put.Args) != 2 {
+			continue
+		}
+		name := fullName(calleeOf(cs.info, put))
+		want := map[string]int64{"(encoding/binary.bigEndian).PutUint16": 2, "(encoding/binary.bigEndian).PutUint32": 4}[name]
+		if want == 0 || arr.Len() != want {
+			continue
+		}
+		if id := sliceOf(put.Args[0]); id == nil || cs.info.Uses[id] != obj {
+			continue
+		}
+		op, isW := cs.directWrite(stmts[i+2], bufName)
+		if !isW {
+			continue
+		}
+		if id := sliceOf(op); id == nil || cs.info.Uses[id] != obj {
+			continue
+		}
+		// the temporary must not be used anywhere else
+		uses := 0
+		for id, o := range cs.info.Uses {
+			if o == obj {
+				_ = id
+				uses++
+			}
+		}
+		if uses != 2 {
+			continue
+		}
+		cs.writeOverride[stmts[i+2]] = put.Args[1]
+		cs.writeSkip[stmts[i]] = true
+		cs.writeSkip[stmts[i+1]] = true
+	}
+}
+
 func (cs *CodecSet) ioStmt(s ast.Stmt, bufName string, write bool) (operand ast.Expr, errOK bool, why string, ok bool) {
+	if write {
+		if op, isW := cs.directWrite(s, bufName); isW {
+			return op, true, "", true
+		}
+	}
 	is, isIf := s.(*ast.IfStmt)
 	if !isIf || is.Init == nil || is.Else != nil {
 		return
@@ -968,7 +1090,11 @@ func (cs *CodecSet) parseEncoder(c *Codec) {
 		*slots = append(*slots, EncSlot{IE: it.IE, Optional: optional, Items: []WireItem{it}, ErrOK: errOK, Pos: pos})
 	}
 	stmts := fd.Body.List
+	cs.foldPutUint(stmts, buf)
 	for i, s := range stmts {
+		if cs.writeSkip[s] {
+			continue
+		}
 		if r, ok := s.(*ast.ReturnStmt); ok && i == len(stmts)-1 {
 			if len(r.Results) == 1 {
 				if id, ok := r.Results[0].(*ast.Ident); ok && id.Name == "nil" {
@@ -1007,7 +1133,11 @@ func (cs *CodecSet) parseEncoder(c *Codec) {
 							ie := se.Sel.Name
 							okAll := true
 							first := true
+							cs.foldPutUint(is.Body.List, buf)
 							for _, bs := range is.Body.List {
+								if cs.writeSkip[bs] {
+									continue
+								}
 								op, errOK, why, ok := cs.ioStmt(bs, buf, true)
 								if !ok {
 									cs.problem(c, fname, bs.Pos(), "unclassified statement in optional block of %s %s", ie, why)
@@ -1461,10 +1591,15 @@ func (cs *CodecSet) parseLoop(c *Codec, fname, recv, buf string, fs *ast.ForStmt
 		cs.problem(c, fname, sw.Pos(), "unsupported switch form")
 		return lp
 	}
+	var tagFn *types.Func // switch helper(arg): the key is computed by a one-argument function of this repository
+	var tagArg ast.Expr
 	if id, ok := ast.Unparen(sw.Tag).(*ast.Ident); ok {
 		tagVar = id.Name
+	} else if call, ok := ast.Unparen(sw.Tag).(*ast.CallExpr); ok && len(call.Args) == 1 && calleeOf(cs.info, call) != nil &&
+		calleeOf(cs.info, call).Pkg() != nil && IsRepoPkg(calleeOf(cs.info, call).Pkg()) {
+		tagFn, tagArg = calleeOf(cs.info, call), call.Args[0]
 	} else {
-		cs.problem(c, fname, sw.Pos(), "switch tag is not a local variable")
+		cs.problem(c, fname, sw.Pos(), "switch tag is neither a local variable nor a one-argument helper of this repository applied to one")
 		return lp
 	}
 	lp.MapOK = true
@@ -1479,7 +1614,16 @@ func (cs *CodecSet) parseLoop(c *Codec, fname, recv, buf string, fs *ast.ForStmt
 			lp.MapOK = false
 			break
 		}
-		t, ok := env[tagVar]
+		var t int
+		var ok bool
+		if tagFn != nil {
+			var a int
+			if a, ok = cs.evalU8env(tagArg, env); ok {
+				t, ok = cs.evalHelper(tagFn, a)
+			}
+		} else {
+			t, ok = env[tagVar]
+		}
 		if !ok {
 			lp.MapOK = false
 			break
@@ -1538,6 +1682,45 @@ func (cs *CodecSet) parseLoop(c *Codec, fname, recv, buf string, fs *ast.ForStmt
 		lp.Cases = append(lp.Cases, dc)
 	}
 	return lp
+}
+
+// evalHelper evaluates a one-argument integer helper of the repository at a concrete argument, on
+// the SSA form (E2); ok=false when the helper leaves the modelled fragment, writes memory or
+// does not return a concrete integer.  Results are cached per helper.
+var helperCache = map[*types.Func]map[int]int{}
+
+func (cs *CodecSet) evalHelper(f *types.Func, a int) (int, bool) {
+	if m := helperCache[f]; m != nil {
+		if v, ok := m[a]; ok {
+			return v, v >= 0
+		}
+	} else {
+		helperCache[f] = map[int]int{}
+	}
+	res := -1
+	defer func() { helperCache[f][a] = res }()
+	fn := cs.w.SSAFunc(f)
+	if fn == nil || len(fn.Params) != 1 {
+		return 0, false
+	}
+	wd, _, okW := typeWidth(fn.Params[0].Type())
+	if !okW {
+		return 0, false
+	}
+	it := NewInterp(cs.w)
+	it.Fuel = 5000
+	st := it.NewState()
+	out := it.Call(fn, []Value{it.constBV(uint64(a), wd)}, st, 0)
+	bv, isBV := out.(BV)
+	if !isBV || len(it.Unsup) > 0 || len(it.Writes) > 0 {
+		return 0, false
+	}
+	c, isC := bv.IsConst()
+	if !isC {
+		return 0, false
+	}
+	res = int(c)
+	return res, true
 }
 
 // execMap interprets the tiny mapping statements (assignments and if/else on uint8 expressions).
